@@ -246,3 +246,19 @@ def tree_digest(path, suffix=None):
         with open(os.path.join(path, n), "rb") as f:
             h.update(n.encode() + b"\0" + hashlib.sha256(f.read()).digest())
     return h.hexdigest(), sorted(names)
+
+
+def other_filesystem_dir(prefix):
+    """A fresh directory on a file system OTHER than the one that holds the temporary
+    directory (tmpfs /dev/shm when present), or None.  Code that builds a file in TMPDIR and
+    renames it into the dataset only works when both are on one file system."""
+    import tempfile
+    cand = "/dev/shm"
+    try:
+        if os.path.isdir(cand) and os.access(cand, os.W_OK) and \
+                os.stat(cand).st_dev != os.stat(tempfile.gettempdir()).st_dev:
+            return tempfile.mkdtemp(
+                prefix=f"ngsv{os.environ.get('NGS_VERIF_RUN_ID', 'x')}-{prefix}", dir=cand)
+    except OSError:
+        pass
+    return None
